@@ -496,8 +496,9 @@ func (g *gen) base(sch *schemaInfo, sp credSpec, o credgen.Opts, kind string) *I
 	doc := buildDoc(sp)
 	b, _ := json.Marshal(doc)
 	in := &Input{Kind: kind, Schema: sch.Label, Merklized: sch.Merklized, Paths: sch.AllPaths, Cred: b, Opts: o}
+	in.Contexts = map[string]json.RawMessage{servicesURL: servicesContext()}
 	if sch.Doc != nil {
-		in.Contexts = map[string]json.RawMessage{sch.URL: sch.Doc}
+		in.Contexts[sch.URL] = sch.Doc
 	}
 	return in
 }
@@ -509,7 +510,7 @@ func (g *gen) credSpecs(sch *schemaInfo) []credSpec {
 		{Schema: sch, Subject: did, Expiration: i64(4102444800), Status: 2, Variant: 0},
 		{Schema: sch, Subject: did2, Status: 1, Variant: 1},
 		{Schema: sch, Expiration: i64(1893456000), Variant: 2},
-		{Schema: sch, Variant: 3},
+		{Schema: sch, Variant: 3, NoServices: true},
 		{Schema: sch, Subject: did, Expiration: i64(-86400), Variant: 4}, // before 1970
 	}
 	if sch.Label != "kyc-v3" {
